@@ -340,6 +340,7 @@ def step (s : State) : Op → State × Out
         let b' := { b with
           totalSleep := fb.totalSleep, excludedSleep := fb.excludedSleep, errorsNum := fb.errorsNum
           sleepMS := fb.sleepMS, times := fb.times
+          configs := fb.configs       -- `b.configs = forked.configs` (the slice is shared like the maps; `forked` is retired)
           -- ghost: the copied accounting was accumulated under the fork's budget
           tainted := fb.tainted || decide (fb.maxSleep ≤ 0) || decide (fb.maxSleep > b.maxSleep) }
         (((s.setB t b').setB f { fb with retired := true }), .merged)
